@@ -1,2 +1,840 @@
+import NeatviVerif.Lemmas.C10Rep
+import NeatviVerif.Lemmas.C10Eval
+import NeatviVerif.Lemmas.C10Bt
+import NeatviVerif.Lemmas.C10Cuts
+/-!
+# C10: the regex VM is sound for a declarative matching relation
+
+* `Matches subj flg ngrps t r r'`: declarative semantics of the parse tree on states `(pos, marks)`.
+* `vm_sound`: every successful run of the VM through the code emitted for `t` passes through the
+  exit address of that code in a state `r` with `Matches … t (pos, m) r`.
+* `regcomp_sound`: whole programs as `regcomp` lays them out.
+* `leftmost_vm`: `execLoop` reports the first start position whose VM run succeeds.
+* `groups_nested`: positions move forward, marks written lie inside the span, other marks are kept.
+-/
 namespace Neatvi.Props.C10
+open Neatvi Neatvi.Regex Neatvi.Lemmas.C10
+
+mutual
+/-- `Matches subj flg ngrps t r r'`: the tree `t` can take the state `r = (pos, marks)` to `r'`, i.e.
+    the bytes between the two positions are a string the expression really matches in the context of
+    the whole subject (anchors, word boundaries, case folding and classes are judged by `atomMatch`
+    on the whole subject), and `r'.2` records, for every group that took part, the span of its last
+    occurrence. -/
+inductive Matches (subj : Bytes) (flg ngrps : Nat) : RNode → Nat × Marks → Nat × Marks → Prop
+  | nul (r : Nat × Marks) : Matches subj flg ngrps RNode.nul r r
+  | cat {a b : RNode} {r s r' : Nat × Marks} :
+      Matches subj flg ngrps a r s → Matches subj flg ngrps b s r' →
+      Matches subj flg ngrps (RNode.cat a b) r r'
+  | altl {a b : RNode} {r r' : Nat × Marks} :
+      Matches subj flg ngrps a r r' → Matches subj flg ngrps (RNode.alt a b) r r'
+  | altr {a b : RNode} {r r' : Nat × Marks} :
+      Matches subj flg ngrps b r r' → Matches subj flg ngrps (RNode.alt a b) r r'
+  | atom {a : Atom} {mn mx : Int} {k : Nat} {r r' : Nat × Marks} :
+      RepOk mn mx k → Iter subj flg ngrps (RNode.atom a mn mx) k r r' →
+      Matches subj flg ngrps (RNode.atom a mn mx) r r'
+  | grp {a : RNode} {g : Nat} {mn mx : Int} {k : Nat} {r r' : Nat × Marks} :
+      RepOk mn mx k → Iter subj flg ngrps (RNode.grp a g mn mx) k r r' →
+      Matches subj flg ngrps (RNode.grp a g mn mx) r r'
+/-- one copy of the body of a repeated node (the counts of the node play no role) -/
+inductive One (subj : Bytes) (flg ngrps : Nat) : RNode → Nat × Marks → Nat × Marks → Prop
+  | atom {a : Atom} {mn mx : Int} {pos pos' : Nat} {m : Marks} :
+      atomMatch a subj flg pos = AR.ok pos' →
+      One subj flg ngrps (RNode.atom a mn mx) (pos, m) (pos', m)
+  | grp {a : RNode} {g : Nat} {mn mx : Int} {pos pos' : Nat} {m m' : Marks} :
+      Matches subj flg ngrps a (pos, setMk ngrps m (2 * g) pos) (pos', m') →
+      One subj flg ngrps (RNode.grp a g mn mx) (pos, m) (pos', setMk ngrps m' (2 * g + 1) pos')
+/-- `k` successive copies -/
+inductive Iter (subj : Bytes) (flg ngrps : Nat) : RNode → Nat → Nat × Marks → Nat × Marks → Prop
+  | zero (t : RNode) (r : Nat × Marks) : Iter subj flg ngrps t 0 r r
+  | succ {t : RNode} {k : Nat} {r s r' : Nat × Marks} :
+      One subj flg ngrps t r s → Iter subj flg ngrps t k s r' → Iter subj flg ngrps t (k + 1) r r'
+end
+
+theorem iter_of_iterR {subj : Bytes} {flg ngrps : Nat} {t : RNode} {k : Nat} : ∀ {r r' : St},
+    IterR (One subj flg ngrps t) k r r' → Iter subj flg ngrps t k r r' := by
+  induction k with
+  | zero => intro r r' h; cases h; exact Iter.zero t r
+  | succ k ih => intro r r' h; cases h with | succ h1 h2 => exact Iter.succ h1 (ih h2)
+
+theorem iterR_of_iter {subj : Bytes} {flg ngrps : Nat} {t : RNode} {k : Nat} : ∀ {r r' : St},
+    Iter subj flg ngrps t k r r' → IterR (One subj flg ngrps t) k r r' := by
+  induction k with
+  | zero => intro r r' h; cases h; exact IterR.zero r
+  | succ k ih => intro r r' h; cases h with | succ h1 h2 => exact IterR.succ h1 (ih h2)
+
+/-! ### soundness of the emitted code -/
+section sound
+variable {cx : Ctx}
+
+theorem body_atom (a : Atom) (mn mx : Int) :
+    BodySound cx (fun _ => [Inst.atom a]) 1 (One cx.subj cx.flg cx.ngrps (RNode.atom a mn mx)) := by
+  refine ⟨fun _ => rfl, ?_⟩
+  intro pre post b hb hp dep pos m cuts p' m' c' hr
+  have hi : cx.prog[b]? = some (Inst.atom a) := by
+    rw [hb]; exact get_mid (q := post) hp
+  rw [loop_atom cx hi] at hr
+  split at hr
+  · cases hr
+  · cases hr
+  · rename_i pos' hm
+    exact ⟨(pos', m), dep, cuts, One.atom hm, Nat.le_refl _, hr⟩
+
+theorem body_grp (a : RNode) (g : Nat) (mn mx : Int)
+    (iha : ∀ (pre post : List Inst) (base : Nat), base = pre.length →
+      cx.prog = pre ++ emit a base ++ post → ∀ e, e = base + emitLen a →
+      SegSound cx (Matches cx.subj cx.flg cx.ngrps a) base e) :
+    BodySound cx (fun b => [Inst.mark (2 * g)] ++ emit a (b + 1) ++ [Inst.mark (2 * g + 1)])
+      (emitLen a + 2) (One cx.subj cx.flg cx.ngrps (RNode.grp a g mn mx)) := by
+  refine ⟨fun b => by simp [emit_length], ?_⟩
+  intro pre post b hb hp dep pos m cuts p' m' c' hr
+  have h1 : cx.prog[b]? = some (Inst.mark (2 * g)) := by
+    rw [hb]
+    exact get_mid (q := emit a (b + 1) ++ [Inst.mark (2 * g + 1)] ++ post)
+      (by simp [hp, List.append_assoc])
+  have h2 : cx.prog[b + 1 + emitLen a]? = some (Inst.mark (2 * g + 1)) := by
+    have := get_mid (prog := cx.prog) (p := pre ++ [Inst.mark (2 * g)] ++ emit a (b + 1))
+      (x := Inst.mark (2 * g + 1)) (q := post) (by simp [hp, List.append_assoc])
+    rw [show (pre ++ [Inst.mark (2 * g)] ++ emit a (b + 1)).length = b + 1 + emitLen a by
+      simp [emit_length, hb]; omega] at this
+    exact this
+  rw [loop_mark cx h1] at hr
+  obtain ⟨r, d, c, hR, hd, hc⟩ := iha (pre ++ [Inst.mark (2 * g)]) ([Inst.mark (2 * g + 1)] ++ post)
+    (b + 1) (by simp [hb]) (by simp [hp, List.append_assoc]) _ rfl _ _ _ _ _ _ _ hr
+  rw [loop_mark cx h2] at hc
+  refine ⟨(r.1, setMk cx.ngrps r.2 (2 * g + 1) r.1), d, c, One.grp hR, hd, ?_⟩
+  rw [show b + (emitLen a + 2) = b + 1 + emitLen a + 1 by omega]
+  exact hc
+
+/-- soundness of the code emitted for a tree, as a segment of any program -/
+theorem seg_sound (t : RNode) : ∀ (pre post : List Inst) (base : Nat), base = pre.length →
+    cx.prog = pre ++ emit t base ++ post → ∀ e, e = base + emitLen t →
+    SegSound cx (Matches cx.subj cx.flg cx.ngrps t) base e := by
+  induction t with
+  | nul =>
+    intro pre post base _ _ e he
+    rw [show e = base by simp [emitLen] at he; omega]
+    exact SegSound.refl cx (fun r => Matches.nul r) base
+  | atom a mn mx =>
+    intro pre post base hb hp e he
+    exact (seg_rep (body_atom a mn mx) mn mx pre post base hb hp e he).mono cx
+      (fun r r' ⟨k, hk, h⟩ => Matches.atom hk (iter_of_iterR h))
+  | cat a b iha ihb =>
+    intro pre post base hb hp e he
+    have h1 := iha pre (emit b (base + emitLen a) ++ post) base hb
+      (by simp [hp, emit, List.append_assoc]) _ rfl
+    have h2 := ihb (pre ++ emit a base) post (base + emitLen a) (by simp [emit_length, hb])
+      (by simp [hp, emit, List.append_assoc]) e (by simp [emitLen] at he; omega)
+    exact SegSound.comp cx h1 h2 (fun _ _ _ x y => Matches.cat x y)
+  | alt a b iha ihb =>
+    intro pre post base hb hp e he
+    have he' : e = base + 1 + emitLen a + 1 + emitLen b := by simp [emitLen] at he; omega
+    have hf : cx.prog[base]? = some (Inst.fork (base + 1) (base + 1 + emitLen a + 1)) := by
+      have := get_mid (prog := cx.prog) (p := pre)
+        (x := Inst.fork (base + 1) (base + 1 + emitLen a + 1))
+        (q := emit a (base + 1) ++ [Inst.jump (base + 1 + emitLen a + 1 + emitLen b)] ++
+          emit b (base + 1 + emitLen a + 1) ++ post)
+        (by simp [hp, emit, List.append_assoc])
+      rw [← hb] at this; exact this
+    have hj : cx.prog[base + 1 + emitLen a]? = some (Inst.jump (base + 1 + emitLen a + 1 + emitLen b)) := by
+      have := get_mid (prog := cx.prog)
+        (p := pre ++ [Inst.fork (base + 1) (base + 1 + emitLen a + 1)] ++ emit a (base + 1))
+        (x := Inst.jump (base + 1 + emitLen a + 1 + emitLen b))
+        (q := emit b (base + 1 + emitLen a + 1) ++ post)
+        (by simp [hp, emit, List.append_assoc])
+      rw [show (pre ++ [Inst.fork (base + 1) (base + 1 + emitLen a + 1)] ++ emit a (base + 1)).length
+        = base + 1 + emitLen a by simp [emit_length, hb]; omega] at this
+      exact this
+    have ha := iha (pre ++ [Inst.fork (base + 1) (base + 1 + emitLen a + 1)])
+      ([Inst.jump (base + 1 + emitLen a + 1 + emitLen b)] ++ emit b (base + 1 + emitLen a + 1) ++ post)
+      (base + 1) (by simp [hb]) (by simp [hp, emit, List.append_assoc]) _ rfl
+    have hbb := ihb (pre ++ [Inst.fork (base + 1) (base + 1 + emitLen a + 1)] ++ emit a (base + 1) ++
+        [Inst.jump (base + 1 + emitLen a + 1 + emitLen b)]) post (base + 1 + emitLen a + 1)
+      (by simp [emit_length, hb]; omega) (by simp [hp, emit, List.append_assoc]) e (by omega)
+    intro dep pos m cuts p' m' c' hr
+    rcases fork_ok cx hf hr with ⟨_, hl⟩ | ⟨c'', hl⟩
+    · obtain ⟨r, d, c, hR, hd, hc⟩ := ha _ _ _ _ _ _ _ hl
+      rw [loop_jump cx hj] at hc
+      split at hc
+      · exact ⟨r, d, c, Matches.altl hR, by omega, by rw [he']; exact hc⟩
+      · cases hc
+    · obtain ⟨r, d, c, hR, hd, hc⟩ := hbb _ _ _ _ _ _ _ hl
+      exact ⟨r, d, c, Matches.altr hR, hd, hc⟩
+  | grp a g mn mx iha =>
+    intro pre post base hb hp e he
+    exact (seg_rep (body_grp a g mn mx iha) mn mx pre post base hb hp e he).mono cx
+      (fun r r' ⟨k, hk, h⟩ => Matches.grp hk (iter_of_iterR h))
+
+/-- **vm_sound**: a successful run of the VM that enters the code emitted for `t` (anywhere in a
+    program) passes through the exit address of that code, at a depth that is not smaller, in a
+    state `r` such that `t` takes the entry state to `r`; the rest of the run produces the result. -/
+theorem vm_sound (t : RNode) (pre post : List Inst) (base : Nat) (hb : base = pre.length)
+    (hp : cx.prog = pre ++ emit t base ++ post) (dep pos : Nat) (m : Marks) (cuts : Nat)
+    (p' : Nat) (m' : Marks) (c' : Nat)
+    (h : loop cx dep base pos m cuts = Res.ok p' m' c') :
+    ∃ r : Nat × Marks, Matches cx.subj cx.flg cx.ngrps t (pos, m) r ∧
+      ∃ dep' cuts', dep ≤ dep' ∧ loop cx dep' (base + emitLen t) r.1 r.2 cuts' = Res.ok p' m' c' := by
+  obtain ⟨r, d, c, hR, hd, hc⟩ := seg_sound t pre post base hb hp _ rfl dep pos m cuts p' m' c' h
+  exact ⟨r, hR, d, c, hd, hc⟩
+
+/-- the marks `re_recmatch` starts from -/
+def marks0 (ngrps : Nat) : Marks := List.replicate (2 * ngrps) (-1)
+
+/-- **regcomp_sound** (general form): for a program laid out as `regcomp` does, a successful
+    `recmatch` at `start` reports a position `p` and marks `m` such that the tree takes
+    `(start, marks with mark 0 set)` to `(p, m1)` and `m` is `m1` with mark 1 set to `p`. -/
+theorem regcomp_sound' (t : RNode)
+    (hp : cx.prog = [Inst.mark 0] ++ emit t 1 ++ [Inst.mark 1, Inst.mtch])
+    (start cuts p : Nat) (m : Marks) (c : Nat) (h : recmatch cx start cuts = Res.ok p m c) :
+    ∃ m1, Matches cx.subj cx.flg cx.ngrps t
+        (start, setMk cx.ngrps (marks0 cx.ngrps) 0 start) (p, m1) ∧
+      m = setMk cx.ngrps m1 1 p := by
+  unfold recmatch at h
+  obtain ⟨_, hl⟩ := act_ok cx h
+  have h0 : cx.prog[0]? = some (Inst.mark 0) := by rw [hp]; rfl
+  have h1 : cx.prog[1 + emitLen t]? = some (Inst.mark 1) := by
+    have := get_mid (prog := cx.prog) (p := [Inst.mark 0] ++ emit t 1) (x := Inst.mark 1)
+      (q := [Inst.mtch]) (by simp [hp, List.append_assoc])
+    rw [show ([Inst.mark 0] ++ emit t 1).length = 1 + emitLen t by simp [emit_length]; omega] at this
+    exact this
+  have h2 : cx.prog[1 + emitLen t + 1]? = some Inst.mtch := by
+    have := get_mid (prog := cx.prog) (p := [Inst.mark 0] ++ emit t 1 ++ [Inst.mark 1]) (x := Inst.mtch)
+      (q := []) (by simp [hp, List.append_assoc])
+    rw [show ([Inst.mark 0] ++ emit t 1 ++ [Inst.mark 1]).length = 1 + emitLen t + 1 by
+      simp [emit_length]; omega] at this
+    exact this
+  rw [loop_mark cx h0] at hl
+  obtain ⟨r, hR, d, c2, _, hc⟩ := vm_sound t [Inst.mark 0] [Inst.mark 1, Inst.mtch] 1 rfl hp _ _ _ _ _ _ _ hl
+  rw [loop_mark cx h1, loop_mtch cx h2] at hc
+  injection hc with e1 e2 e3
+  subst e1
+  exact ⟨r.2, hR, e2.symm⟩
+
+/-- **regcomp_sound**: with marks 0 and 1 in range (`1 < ngrps`, as `regexec` runs the VM), the
+    reported whole-match span `[start, p]` is a string the expression really matches, and the
+    reported group marks are those of that parse. -/
+theorem regcomp_sound (t : RNode)
+    (hp : cx.prog = [Inst.mark 0] ++ emit t 1 ++ [Inst.mark 1, Inst.mtch]) (hg : 1 < cx.ngrps)
+    (start cuts p : Nat) (m : Marks) (c : Nat) (h : recmatch cx start cuts = Res.ok p m c) :
+    ∃ m1, Matches cx.subj cx.flg cx.ngrps t
+        (start, (marks0 cx.ngrps).set 0 (start : Int)) (p, m1) ∧
+      m = m1.set 1 (p : Int) := by
+  obtain ⟨m1, h1, h2⟩ := regcomp_sound' t hp start cuts p m c h
+  refine ⟨m1, ?_, ?_⟩
+  · simpa [setMk, show 0 < cx.ngrps by omega] using h1
+  · simpa [setMk, hg] using h2
+
+end sound
+
+/-! ### the start-position loop -/
+
+/-- `FailsUntil cx s0 c0 s c`: the start positions tried from `s0` (steps of `rxLen`) strictly before
+    `s` all had `recmatch` fail; `c0`, `c` are the cut counters threaded through -/
+inductive FailsUntil (cx : Ctx) : Nat → Nat → Nat → Nat → Prop
+  | here (s c : Nat) : FailsUntil cx s c s c
+  | step {s c c' s' c'' : Nat} : recmatch cx s c = Res.fail c' →
+      FailsUntil cx (s + rxLen cx.subj s) c' s' c'' → FailsUntil cx s c s' c''
+
+/-- **leftmost_vm**: `execLoop` reports the marks of the VM run at the first start position tried
+    (from `start0`, advancing by `rxLen`) whose `recmatch` succeeds: all start positions tried before
+    it returned `fail`. -/
+theorem leftmost_vm (cx : Ctx) : ∀ (f start0 cuts0 : Nat) (m : Marks) (c : Nat),
+    execLoop cx f start0 cuts0 = ExecRes.found m c →
+    ∃ s cuts p, FailsUntil cx start0 cuts0 s cuts ∧ recmatch cx s cuts = Res.ok p m c := by
+  intro f
+  induction f with
+  | zero => intro start0 cuts0 m c h; simp [execLoop] at h
+  | succ f ih =>
+    intro start0 cuts0 m c h
+    rw [execLoop] at h
+    split at h
+    · cases h
+    · split at h
+      · rename_i p1 m1 c1 hrec
+        injection h with e1 e2
+        subst e1; subst e2
+        exact ⟨start0, cuts0, p1, FailsUntil.here _ _, hrec⟩
+      · cases h
+      · rename_i c1 hrec
+        split at h
+        · cases h
+        · obtain ⟨s, cuts, p, hf, hr⟩ := ih _ _ _ _ h
+          exact ⟨s, cuts, p, FailsUntil.step hrec hf, hr⟩
+
+/-- `NoRunUntil cx s0 s`: no start position tried from `s0` (steps of `rxLen`) strictly before `s`
+    has a successful VM run, whatever the cut counter it is started with -/
+inductive NoRunUntil (cx : Ctx) : Nat → Nat → Prop
+  | here (s : Nat) : NoRunUntil cx s s
+  | step {s s' : Nat} : (∀ cuts, ∃ c, recmatch cx s cuts = Res.fail c) →
+      NoRunUntil cx (s + rxLen cx.subj s) s' → NoRunUntil cx s s'
+
+theorem noRun_of_fails {cx : Ctx} {s0 c0 s c : Nat} (h : FailsUntil cx s0 c0 s c) : NoRunUntil cx s0 s := by
+  induction h with
+  | here s c => exact NoRunUntil.here s
+  | step hf _ ih => exact NoRunUntil.step (fun cuts => recmatch_fail_any cx hf cuts) ih
+
+/-- **leftmost_vm**, in the form independent of the cut counter: no start position tried before
+    the reported one has a successful VM run. -/
+theorem leftmost_vm_strong (cx : Ctx) (f start0 cuts0 : Nat) (m : Marks) (c : Nat)
+    (h : execLoop cx f start0 cuts0 = ExecRes.found m c) :
+    ∃ s cuts p, NoRunUntil cx start0 s ∧ recmatch cx s cuts = Res.ok p m c := by
+  obtain ⟨s, cuts, p, hf, hr⟩ := leftmost_vm cx f start0 cuts0 m c h
+  exact ⟨s, cuts, p, noRun_of_fails hf, hr⟩
+
+/-- **regexec_sound** (end to end): if `regcomp` accepts the pattern and `regexec` reports a match
+    with marks `m`, then the pattern parsed to a tree `t0`, and for some start position `s` and end
+    position `p` the numbered tree really matches the subject from `s` to `p`, the marks reported are
+    those of that parse (with marks 0/1 = `s`/`p`), and no start position tried before `s` has a
+    successful VM run. -/
+theorem regexec_sound {pat : Bytes} {flg : Nat} {prog : Prog} (hc : regcomp pat flg = some (some prog))
+    (subj : Bytes) (nsub eflg nd ngrps : Nat) (hg : 1 < ngrps) (m : Marks) (c : Nat)
+    (subs : List (Int × Int))
+    (hr : regexec prog subj nsub eflg nd ngrps = (ExecRes.found m c, subs)) :
+    ∃ t0 s p m1, parse pat = some (some t0) ∧
+      Matches subj (prog.flg ||| eflg) ngrps (grpnum t0 1).1 (s, (marks0 ngrps).set 0 (s : Int)) (p, m1) ∧
+      m = m1.set 1 (p : Int) ∧
+      NoRunUntil ⟨prog.code, subj, prog.flg ||| eflg, nd, ngrps⟩ 0 s := by
+  unfold regcomp at hc
+  split at hc
+  · cases hc
+  · cases hc
+  · rename_i t0 hparse
+    injection hc with hc; injection hc with hc
+    have hcode : prog.code = [Inst.mark 0] ++ emit (grpnum t0 1).1 1 ++ [Inst.mark 1, Inst.mtch] := by
+      rw [← hc]
+    unfold regexec at hr
+    simp only [] at hr
+    split at hr
+    · cases hr
+    · split at hr
+      · rename_i m' c' hex
+        injection hr with h1 h2
+        injection h1 with hm hc'
+        subst hm; subst hc'
+        obtain ⟨s, cuts, p, hno, hrec⟩ := leftmost_vm_strong _ _ _ _ _ _ hex
+        obtain ⟨m1, hM, hm1⟩ := regcomp_sound
+          (cx := ⟨prog.code, subj, prog.flg ||| eflg, nd, ngrps⟩) (grpnum t0 1).1 hcode hg s cuts p _ _ hrec
+        exact ⟨t0, s, p, m1, hparse, hM, hm1, hno⟩
+      · rename_i r hnf
+        injection hr with h1 h2
+        exact absurd h1 (by intro h; exact hnf m c h)
+
+/-! ### positions move forward; marks lie inside the span -/
+
+theorem chrIcase_le (lit subj : Bytes) : ∀ (f k r p : Nat),
+    chrIcase lit subj f k r = AR.ok p → r ≤ p := by
+  intro f
+  induction f with
+  | zero => intro k r p h; simp [chrIcase] at h
+  | succ f ih =>
+    intro k r p h
+    rw [chrIcase] at h
+    split at h
+    · cases h
+    · injection h with h; omega
+    · split at h
+      · split at h
+        · cases h
+        · have := ih _ _ _ h; omega
+      · cases h
+
+/-- atoms never move backwards -/
+theorem atomMatch_le {a : Atom} {subj : Bytes} {flg pos pos' : Nat}
+    (h : atomMatch a subj flg pos = AR.ok pos') : pos ≤ pos' := by
+  unfold atomMatch at h
+  simp only [] at h
+  split at h
+  · cases h
+  · split at h
+    · split at h
+      · split at h
+        · injection h with h; omega
+        · cases h
+      · exact chrIcase_le _ _ _ _ _ _ h
+    all_goals (repeat' split at h)
+    all_goals (first | (injection h with h; omega) | cases h)
+
+/-- `Span r r'`: the position did not move backwards, the number of marks is kept, and every mark
+    is either unchanged or holds a position inside `[r.1, r'.1]` -/
+def Span (r r' : Nat × Marks) : Prop :=
+  r.1 ≤ r'.1 ∧ r'.2.length = r.2.length ∧
+  ∀ i : Nat, r'.2[i]? = r.2[i]? ∨ ∃ v : Nat, r'.2[i]? = some (v : Int) ∧ r.1 ≤ v ∧ v ≤ r'.1
+
+theorem Span.refl (r : Nat × Marks) : Span r r :=
+  ⟨Nat.le_refl _, rfl, fun _ => Or.inl rfl⟩
+
+theorem Span.trans {r s r' : Nat × Marks} (h1 : Span r s) (h2 : Span s r') : Span r r' := by
+  obtain ⟨a1, b1, c1⟩ := h1
+  obtain ⟨a2, b2, c2⟩ := h2
+  refine ⟨by omega, by omega, ?_⟩
+  intro i
+  rcases c2 i with e2 | ⟨v, e2, l2, u2⟩
+  · rcases c1 i with e1 | ⟨v, e1, l1, u1⟩
+    · exact Or.inl (e2.trans e1)
+    · exact Or.inr ⟨v, e2.trans e1, l1, by omega⟩
+  · exact Or.inr ⟨v, e2, by omega, u2⟩
+
+theorem setMk_length (ngrps : Nat) (m : Marks) (k pos : Nat) : (setMk ngrps m k pos).length = m.length := by
+  unfold setMk; split <;> simp
+
+theorem setMk_get_ne (ngrps : Nat) (m : Marks) (k pos i : Nat) (h : i ≠ k) :
+    (setMk ngrps m k pos)[i]? = m[i]? := by
+  unfold setMk; split
+  · rw [List.getElem?_set_ne (by omega)]
+  · rfl
+
+theorem setMk_get_self (ngrps : Nat) (m : Marks) (k pos : Nat) (h1 : k < ngrps) (h2 : k < m.length) :
+    (setMk ngrps m k pos)[k]? = some (pos : Int) := by
+  unfold setMk; rw [if_pos h1]; simp [h2]
+
+theorem span_setMk (ngrps : Nat) (m : Marks) (k pos : Nat) : Span (pos, m) (pos, setMk ngrps m k pos) := by
+  refine ⟨Nat.le_refl _, setMk_length _ _ _ _, ?_⟩
+  intro i
+  by_cases hi : i = k
+  · subst hi
+    by_cases h1 : i < ngrps
+    · by_cases h2 : i < m.length
+      · exact Or.inr ⟨pos, setMk_get_self _ _ _ _ h1 h2, Nat.le_refl _, Nat.le_refl _⟩
+      · left
+        show (setMk ngrps m i pos)[i]? = m[i]?
+        rw [List.getElem?_eq_none (by rw [setMk_length]; omega), List.getElem?_eq_none (by omega)]
+    · left; simp [setMk, h1]
+  · exact Or.inl (setMk_get_ne _ _ _ _ _ hi)
+
+/-- the indices of the marks the code of a tree can write -/
+def markIdx : RNode → List Nat
+  | .nul => []
+  | .atom _ _ _ => []
+  | .cat a b => markIdx a ++ markIdx b
+  | .alt a b => markIdx a ++ markIdx b
+  | .grp a g _ _ => (2 * g) :: (2 * g + 1) :: markIdx a
+
+section spans
+variable {subj : Bytes} {flg ngrps : Nat}
+
+theorem iter_span {t : RNode} (hone : ∀ r s, One subj flg ngrps t r s → Span r s) :
+    ∀ k r r', Iter subj flg ngrps t k r r' → Span r r' := by
+  intro k
+  induction k with
+  | zero => intro r r' h; cases h; exact Span.refl _
+  | succ k ih => intro r r' h; cases h with | succ h1 h2 => exact (hone _ _ h1).trans (ih _ _ h2)
+
+theorem iter_frame {t : RNode} {P : Nat → Prop}
+    (hone : ∀ r s, One subj flg ngrps t r s → ∀ i, P i → s.2[i]? = r.2[i]?) :
+    ∀ k r r', Iter subj flg ngrps t k r r' → ∀ i, P i → r'.2[i]? = r.2[i]? := by
+  intro k
+  induction k with
+  | zero => intro r r' h; cases h; intro _ _; rfl
+  | succ k ih =>
+    intro r r' h i hi
+    cases h with | succ h1 h2 => exact (ih _ _ h2 i hi).trans (hone _ _ h1 i hi)
+
+/-- the last of `k + 1` copies -/
+theorem iter_last {t : RNode} : ∀ k r r', Iter subj flg ngrps t (k + 1) r r' →
+    ∃ q, Iter subj flg ngrps t k r q ∧ One subj flg ngrps t q r' := by
+  intro k
+  induction k with
+  | zero =>
+    intro r r' h
+    cases h with | succ h1 h2 => cases h2; exact ⟨r, Iter.zero _ _, h1⟩
+  | succ k ih =>
+    intro r r' h
+    cases h with
+    | succ h1 h2 =>
+      obtain ⟨q, hq1, hq2⟩ := ih _ _ h2
+      exact ⟨q, Iter.succ h1 hq1, hq2⟩
+
+/-- `Matches` never moves backwards, keeps the number of marks, and every mark it changes holds a
+    position between the entry and the exit position -/
+theorem matches_span (t : RNode) : ∀ r r', Matches subj flg ngrps t r r' → Span r r' := by
+  induction t with
+  | nul => intro r r' h; cases h; exact Span.refl _
+  | atom a mn mx =>
+    intro r r' h
+    cases h with
+    | atom hk hi =>
+      refine iter_span ?_ _ _ _ hi
+      intro r s h1
+      cases h1 with
+      | atom hm => exact ⟨atomMatch_le hm, rfl, fun _ => Or.inl rfl⟩
+  | cat a b iha ihb =>
+    intro r r' h
+    cases h with | cat h1 h2 => exact (iha _ _ h1).trans (ihb _ _ h2)
+  | alt a b iha ihb =>
+    intro r r' h
+    cases h with
+    | altl h1 => exact iha _ _ h1
+    | altr h1 => exact ihb _ _ h1
+  | grp a g mn mx iha =>
+    intro r r' h
+    cases h with
+    | grp hk hi =>
+      refine iter_span ?_ _ _ _ hi
+      intro r s h1
+      cases h1 with
+      | grp hm => exact ((span_setMk _ _ _ _).trans (iha _ _ hm)).trans (span_setMk _ _ _ _)
+
+/-- marks that are not among `markIdx t` are unchanged -/
+theorem matches_frame (t : RNode) : ∀ r r', Matches subj flg ngrps t r r' →
+    ∀ i, i ∉ markIdx t → r'.2[i]? = r.2[i]? := by
+  induction t with
+  | nul => intro r r' h; cases h; intro _ _; rfl
+  | atom a mn mx =>
+    intro r r' h
+    cases h with
+    | atom hk hi =>
+      refine iter_frame (P := fun i => i ∉ markIdx (RNode.atom a mn mx)) ?_ _ _ _ hi
+      intro r s h1 i _
+      cases h1 with
+      | atom hm => rfl
+  | cat a b iha ihb =>
+    intro r r' h i hi
+    simp only [markIdx, List.mem_append, not_or] at hi
+    cases h with | cat h1 h2 => exact (ihb _ _ h2 i hi.2).trans (iha _ _ h1 i hi.1)
+  | alt a b iha ihb =>
+    intro r r' h i hi
+    simp only [markIdx, List.mem_append, not_or] at hi
+    cases h with
+    | altl h1 => exact iha _ _ h1 i hi.1
+    | altr h1 => exact ihb _ _ h1 i hi.2
+  | grp a g mn mx iha =>
+    intro r r' h
+    cases h with
+    | grp hk hi =>
+      refine iter_frame (P := fun i => i ∉ markIdx (RNode.grp a g mn mx)) ?_ _ _ _ hi
+      intro r s h1 i hi
+      simp only [markIdx, List.mem_cons, not_or] at hi
+      cases h1 with
+      | grp hm =>
+        show (setMk ngrps _ (2 * g + 1) _)[i]? = _
+        rw [setMk_get_ne _ _ _ _ _ hi.2.1, iha _ _ hm i hi.2.2]
+        exact setMk_get_ne _ _ _ _ _ hi.1
+
+/-- what one copy `q → r'` of the group `g` with body `a` leaves in the marks -/
+structure GrpSpan (ngrps : Nat) (a : RNode) (g : Nat) (q r' : Nat × Marks) : Prop where
+  /-- the copy does not move backwards and keeps the number of marks -/
+  le : q.1 ≤ r'.1
+  len : r'.2.length = q.2.length
+  /-- mark `2g+1` is the exit position of the copy -/
+  close : 2 * g + 1 < ngrps → 2 * g + 1 < q.2.length → r'.2[2 * g + 1]? = some (r'.1 : Int)
+  /-- mark `2g` is the entry position of the copy (no group inside `a` has the same number) -/
+  open_ : 2 * g < ngrps → 2 * g < q.2.length → 2 * g ∉ markIdx a → r'.2[2 * g]? = some (q.1 : Int)
+  /-- every mark the copy changed (those of the groups inside `a` included) holds a position between
+      the entry and the exit position of the copy -/
+  inside : ∀ i : Nat, r'.2[i]? = q.2[i]? ∨ ∃ v : Nat, r'.2[i]? = some (v : Int) ∧ q.1 ≤ v ∧ v ≤ r'.1
+  /-- marks of other groups are unchanged -/
+  frame : ∀ i : Nat, i ≠ 2 * g → i ≠ 2 * g + 1 → i ∉ markIdx a → r'.2[i]? = q.2[i]?
+
+theorem one_grp_span {a : RNode} {g : Nat} {mn mx : Int} {q r' : Nat × Marks}
+    (h : One subj flg ngrps (RNode.grp a g mn mx) q r') : GrpSpan ngrps a g q r' := by
+  cases h with
+  | grp hm =>
+    rename_i pos pos' m m'
+    have hs := matches_span a _ _ hm
+    have hall : Span (pos, m) (pos', setMk ngrps m' (2 * g + 1) pos') :=
+      ((span_setMk _ _ _ _).trans hs).trans (span_setMk _ _ _ _)
+    have hlen : m'.length = m.length := by
+      have := hs.2.1; simp only [setMk_length] at this; exact this
+    refine ⟨hall.1, hall.2.1, ?_, ?_, hall.2.2, ?_⟩
+    · intro h1 h2
+      exact setMk_get_self _ _ _ _ h1 (by rw [hlen]; exact h2)
+    · intro h1 h2 h3
+      show (setMk ngrps m' (2 * g + 1) pos')[2 * g]? = _
+      rw [setMk_get_ne _ _ _ _ _ (by omega), matches_frame a _ _ hm _ h3]
+      exact setMk_get_self _ _ _ _ h1 h2
+    · intro i h1 h2 h3
+      show (setMk ngrps m' (2 * g + 1) pos')[i]? = _
+      rw [setMk_get_ne _ _ _ _ _ h2, matches_frame a _ _ hm _ h3]
+      exact setMk_get_ne _ _ _ _ _ h1
+
+/-- **groups_nested**: a match of a group node either made no copy (state unchanged) or there is a
+    state `q` before the last copy, reached from `r` without moving backwards, such that the last
+    copy `q → r'` left marks `2g`, `2g+1` at its entry and exit positions and every mark it changed
+    holds a position between them. -/
+theorem groups_nested {a : RNode} {g : Nat} {mn mx : Int} {r r' : Nat × Marks}
+    (h : Matches subj flg ngrps (RNode.grp a g mn mx) r r') :
+    r' = r ∨ ∃ q, Span r q ∧ One subj flg ngrps (RNode.grp a g mn mx) q r' ∧ GrpSpan ngrps a g q r' := by
+  cases h with
+  | grp hk hi =>
+    rename_i k
+    cases k with
+    | zero => cases hi; exact Or.inl rfl
+    | succ k =>
+      obtain ⟨q, hq1, hq2⟩ := iter_last _ _ _ hi
+      have hone : ∀ r s, One subj flg ngrps (RNode.grp a g mn mx) r s → Span r s :=
+        fun r s h => ⟨(one_grp_span h).le, (one_grp_span h).len, (one_grp_span h).inside⟩
+      exact Or.inr ⟨q, iter_span hone _ _ _ hq1, hq2, one_grp_span hq2⟩
+
+end spans
+
+/-! ### group numbering: the hypothesis `2 * g ∉ markIdx a` of `GrpSpan.open_` holds for compiled trees -/
+
+theorem markIdx_grpnum (t : RNode) : ∀ n i, i ∈ markIdx (grpnum t n).1 →
+    2 * n ≤ i ∧ i < 2 * (n + (grpnum t n).2) := by
+  induction t with
+  | nul => intro n i h; simp [grpnum, markIdx] at h
+  | atom a mn mx => intro n i h; simp [grpnum, markIdx] at h
+  | cat a b iha ihb =>
+    intro n i h
+    simp only [grpnum, markIdx, List.mem_append] at h ⊢
+    rcases h with h | h
+    · have := iha n i h; omega
+    · have := ihb _ i h; omega
+  | alt a b iha ihb =>
+    intro n i h
+    simp only [grpnum, markIdx, List.mem_append] at h ⊢
+    rcases h with h | h
+    · have := iha n i h; omega
+    · have := ihb _ i h; omega
+  | grp a g mn mx iha =>
+    intro n i h
+    simp only [grpnum, markIdx, List.mem_cons] at h ⊢
+    rcases h with h | h | h
+    · omega
+    · omega
+    · have := iha _ i h; omega
+
+/-- no group contains a group with its own number -/
+def GrpFresh : RNode → Prop
+  | .nul => True
+  | .atom _ _ _ => True
+  | .cat a b => GrpFresh a ∧ GrpFresh b
+  | .alt a b => GrpFresh a ∧ GrpFresh b
+  | .grp a g _ _ => 2 * g ∉ markIdx a ∧ 2 * g + 1 ∉ markIdx a ∧ GrpFresh a
+
+/-- the trees `regcomp` emits code for are numbered by `grpnum`: every group is fresh in its body -/
+theorem grpnum_fresh (t : RNode) : ∀ n, GrpFresh (grpnum t n).1 := by
+  induction t with
+  | nul => intro n; simp [grpnum, GrpFresh]
+  | atom a mn mx => intro n; simp [grpnum, GrpFresh]
+  | cat a b iha ihb => intro n; simp only [grpnum, GrpFresh]; exact ⟨iha _, ihb _⟩
+  | alt a b iha ihb => intro n; simp only [grpnum, GrpFresh]; exact ⟨iha _, ihb _⟩
+  | grp a g mn mx iha =>
+    intro n
+    simp only [grpnum, GrpFresh]
+    refine ⟨?_, ?_, iha _⟩
+    · intro h; have := markIdx_grpnum a _ _ h; omega
+    · intro h; have := markIdx_grpnum a _ _ h; omega
+
+/-! ### the VM on emitted code is the backtracker on the tree -/
+section equation
+variable {cx : Ctx}
+
+theorem bodyEq_atom (a : Atom) : BodyEq cx (fun _ => [Inst.atom a]) 1 (btAtom cx a) := by
+  refine ⟨fun _ => rfl, btAtom_congr cx a, ?_⟩
+  intro pre post b hb hp dep pos m cuts
+  have hi : cx.prog[b]? = some (Inst.atom a) := by
+    rw [hb]; exact get_mid (q := post) hp
+  rw [loop_atom cx hi]
+  rfl
+
+theorem bodyEq_grp (a : RNode) (g : Nat)
+    (iha : ∀ (pre post : List Inst) (base : Nat), base = pre.length →
+      cx.prog = pre ++ emit a base ++ post → ∀ e, e = base + emitLen a →
+      SegEq cx (bt cx a) base e) :
+    BodyEq cx (fun b => [Inst.mark (2 * g)] ++ emit a (b + 1) ++ [Inst.mark (2 * g + 1)])
+      (emitLen a + 2) (btGrp cx (bt cx a) g) := by
+  refine ⟨fun b => by simp [emit_length], btGrp_congr cx (bt_congr cx a) g, ?_⟩
+  · intro pre post b hb hp dep pos m cuts
+    have h1 : cx.prog[b]? = some (Inst.mark (2 * g)) := by
+      rw [hb]
+      exact get_mid (q := emit a (b + 1) ++ [Inst.mark (2 * g + 1)] ++ post)
+        (by simp [hp, List.append_assoc])
+    have h2 : cx.prog[b + 1 + emitLen a]? = some (Inst.mark (2 * g + 1)) := by
+      have := get_mid (prog := cx.prog) (p := pre ++ [Inst.mark (2 * g)] ++ emit a (b + 1))
+        (x := Inst.mark (2 * g + 1)) (q := post) (by simp [hp, List.append_assoc])
+      rw [show (pre ++ [Inst.mark (2 * g)] ++ emit a (b + 1)).length = b + 1 + emitLen a by
+        simp [emit_length, hb]; omega] at this
+      exact this
+    rw [loop_mark cx h1]
+    rw [iha (pre ++ [Inst.mark (2 * g)]) ([Inst.mark (2 * g + 1)] ++ post)
+      (b + 1) (by simp [hb]) (by simp [hp, List.append_assoc]) _ rfl]
+    unfold btGrp
+    apply bt_congr
+    intro d j m' c _
+    show loop cx d (b + 1 + emitLen a) j m' c = _
+    rw [loop_mark cx h2, show b + (emitLen a + 2) = b + 1 + emitLen a + 1 by omega]
+
+/-- **loop_eq_bt**: on the code emitted for `t` (anywhere in a program) the VM is the
+    continuation-passing backtracker `bt` on the tree, continued by the VM at the exit address;
+    depth and cut counter are threaded identically. -/
+theorem loop_eq_bt (t : RNode) : ∀ (pre post : List Inst) (base : Nat), base = pre.length →
+    cx.prog = pre ++ emit t base ++ post → ∀ e, e = base + emitLen t →
+    ∀ dep pos m cuts, loop cx dep base pos m cuts =
+      bt cx t dep pos m cuts (fun d j m' c' => loop cx d e j m' c') := by
+  induction t with
+  | nul =>
+    intro pre post base _ _ e he dep pos m cuts
+    rw [show e = base by simp [emitLen] at he; omega]; rfl
+  | atom a mn mx =>
+    intro pre post base hb hp e he
+    exact eq_rep (bodyEq_atom a) mn mx pre post base hb hp e he
+  | cat a b iha ihb =>
+    intro pre post base hb hp e he dep pos m cuts
+    rw [iha pre (emit b (base + emitLen a) ++ post) base hb
+      (by simp [hp, emit, List.append_assoc]) _ rfl]
+    simp only [bt]
+    apply bt_congr
+    intro d j m' c _
+    exact ihb (pre ++ emit a base) post (base + emitLen a) (by simp [emit_length, hb])
+      (by simp [hp, emit, List.append_assoc]) e (by simp [emitLen] at he; omega) d j m' c
+  | alt a b iha ihb =>
+    intro pre post base hb hp e he dep pos m cuts
+    have he' : e = base + 1 + emitLen a + 1 + emitLen b := by simp [emitLen] at he; omega
+    have hf : cx.prog[base]? = some (Inst.fork (base + 1) (base + 1 + emitLen a + 1)) := by
+      have := get_mid (prog := cx.prog) (p := pre)
+        (x := Inst.fork (base + 1) (base + 1 + emitLen a + 1))
+        (q := emit a (base + 1) ++ [Inst.jump (base + 1 + emitLen a + 1 + emitLen b)] ++
+          emit b (base + 1 + emitLen a + 1) ++ post)
+        (by simp [hp, emit, List.append_assoc])
+      rw [← hb] at this; exact this
+    have hj : cx.prog[base + 1 + emitLen a]? = some (Inst.jump (base + 1 + emitLen a + 1 + emitLen b)) := by
+      have := get_mid (prog := cx.prog)
+        (p := pre ++ [Inst.fork (base + 1) (base + 1 + emitLen a + 1)] ++ emit a (base + 1))
+        (x := Inst.jump (base + 1 + emitLen a + 1 + emitLen b))
+        (q := emit b (base + 1 + emitLen a + 1) ++ post)
+        (by simp [hp, emit, List.append_assoc])
+      rw [show (pre ++ [Inst.fork (base + 1) (base + 1 + emitLen a + 1)] ++ emit a (base + 1)).length
+        = base + 1 + emitLen a by simp [emit_length, hb]; omega] at this
+      exact this
+    have ha := iha (pre ++ [Inst.fork (base + 1) (base + 1 + emitLen a + 1)])
+      ([Inst.jump (base + 1 + emitLen a + 1 + emitLen b)] ++ emit b (base + 1 + emitLen a + 1) ++ post)
+      (base + 1) (by simp [hb]) (by simp [hp, emit, List.append_assoc]) _ rfl
+    have hbb := ihb (pre ++ [Inst.fork (base + 1) (base + 1 + emitLen a + 1)] ++ emit a (base + 1) ++
+        [Inst.jump (base + 1 + emitLen a + 1 + emitLen b)]) post (base + 1 + emitLen a + 1)
+      (by simp [emit_length, hb]; omega) (by simp [hp, emit, List.append_assoc]) e (by omega)
+    rw [loop_fork' cx hf]
+    simp only [bt]
+    apply forkBt_congr
+    · intro _
+      show loop cx (dep + 1) (base + 1) pos m cuts = _
+      rw [ha]
+      apply bt_congr
+      intro d j m' c _
+      show loop cx d (base + 1 + emitLen a) j m' c = _
+      rw [loop_jump cx hj, if_pos (by omega), he']
+    · intro c
+      rw [if_pos (by omega)]
+      exact hbb dep pos m c
+  | grp a g mn mx iha =>
+    intro pre post base hb hp e he
+    exact eq_rep (bodyEq_grp a g iha) mn mx pre post base hb hp e he
+
+/-- whole programs: `recmatch` is the depth test followed by the backtracker on the tree with the
+    final continuation "set mark 1, report the match" -/
+theorem recmatch_eq_bt (t : RNode)
+    (hp : cx.prog = [Inst.mark 0] ++ emit t 1 ++ [Inst.mark 1, Inst.mtch]) (start cuts : Nat) :
+    recmatch cx start cuts =
+      if 0 ≥ cx.nd then Res.fail (cuts + 1)
+      else bt cx t 1 start (setMk cx.ngrps (marks0 cx.ngrps) 0 start) cuts
+        (fun _ j m' c' => Res.ok j (setMk cx.ngrps m' 1 j) c') := by
+  have h0 : cx.prog[0]? = some (Inst.mark 0) := by rw [hp]; rfl
+  have h1 : cx.prog[1 + emitLen t]? = some (Inst.mark 1) := by
+    have := get_mid (prog := cx.prog) (p := [Inst.mark 0] ++ emit t 1) (x := Inst.mark 1)
+      (q := [Inst.mtch]) (by simp [hp, List.append_assoc])
+    rw [show ([Inst.mark 0] ++ emit t 1).length = 1 + emitLen t by simp [emit_length]; omega] at this
+    exact this
+  have h2 : cx.prog[1 + emitLen t + 1]? = some Inst.mtch := by
+    have := get_mid (prog := cx.prog) (p := [Inst.mark 0] ++ emit t 1 ++ [Inst.mark 1]) (x := Inst.mtch)
+      (q := []) (by simp [hp, List.append_assoc])
+    rw [show ([Inst.mark 0] ++ emit t 1 ++ [Inst.mark 1]).length = 1 + emitLen t + 1 by
+      simp [emit_length]; omega] at this
+    exact this
+  unfold recmatch
+  rw [act_eq]
+  split
+  · rfl
+  · rw [loop_mark cx h0, loop_eq_bt t [Inst.mark 0] [Inst.mark 1, Inst.mtch] 1 rfl hp _ rfl]
+    apply bt_congr
+    intro d j m' c' _
+    show loop cx d (1 + emitLen t) j m' c' = _
+    rw [loop_mark cx h1, loop_mtch cx h2]
+
+end equation
+
+/-! ### concrete instances -/
+section examples
+
+/-- `(a|ab)(c|bcd)` -/
+def pat1 : Bytes := [40, 97, 124, 97, 98, 41, 40, 99, 124, 98, 99, 100, 41]
+/-- `xabcd` -/
+def subj1 : Bytes := [120, 97, 98, 99, 100]
+/-- the numbered parse tree of `pat1` -/
+def tree1 : RNode :=
+  .cat (.grp (.alt (.atom ⟨AK.chr, [97]⟩ 1 1) (.atom ⟨AK.chr, [97, 98]⟩ 1 1)) 1 1 1)
+       (.grp (.alt (.atom ⟨AK.chr, [99]⟩ 1 1) (.atom ⟨AK.chr, [98, 99, 100]⟩ 1 1)) 2 1 1)
+/-- the code `regcomp` produces for `pat1` -/
+def code1 : List Inst :=
+  [Inst.mark 0, Inst.mark 2, Inst.fork 3 5, Inst.atom ⟨AK.chr, [97]⟩, Inst.jump 6,
+   Inst.atom ⟨AK.chr, [97, 98]⟩, Inst.mark 3, Inst.mark 4, Inst.fork 9 11, Inst.atom ⟨AK.chr, [99]⟩,
+   Inst.jump 12, Inst.atom ⟨AK.chr, [98, 99, 100]⟩, Inst.mark 5, Inst.mark 1, Inst.mtch]
+
+example : (parse pat1).map (·.map (fun t => (grpnum t 1).1)) = some (some tree1) := by decide
+example : (regcomp pat1 0).map (·.map (·.code)) = some (some code1) := by decide
+example : code1 = [Inst.mark 0] ++ emit tree1 1 ++ [Inst.mark 1, Inst.mtch] := by decide
+
+/-- the VM backtracks out of `a` `c` into `a` `bcd`: the match is `abcd` at offset 1, group 1 = `a`,
+    group 2 = `bcd` -/
+example : regexec ⟨code1, 15, 0⟩ subj1 3 0 64 6 =
+    (ExecRes.found [1, 5, 1, 2, 2, 5, -1, -1, -1, -1, -1, -1] 0, [(1, 5), (1, 2), (2, 5)]) :=
+  regexecF_sound (fuel := 40) (by decide)
+
+/-- `regcomp_sound` applied to that run: the reported span and marks are those of a parse -/
+example : ∃ m1, Matches subj1 0 6 tree1 (1, (marks0 6).set 0 1) (5, m1) ∧
+    [1, 5, 1, 2, 2, 5, -1, -1, -1, -1, -1, -1] = m1.set 1 5 :=
+  regcomp_sound (cx := ⟨code1, subj1, 0, 64, 6⟩) tree1 (by decide) (by decide) 1 0 5 _ 0
+    (actF_sound _ (f := 40) (by decide))
+
+/-- the same run through `recmatch_eq_bt`: the backtracker is structurally recursive, so `decide`
+    runs it -/
+example : recmatch ⟨code1, subj1, 0, 64, 6⟩ 1 0 =
+    Res.ok 5 [1, 5, 1, 2, 2, 5, -1, -1, -1, -1, -1, -1] 0 := by
+  rw [recmatch_eq_bt (cx := ⟨code1, subj1, 0, 64, 6⟩) tree1 (by decide)]
+  decide
+
+/-- `a(b|c)*d` -/
+def pat2 : Bytes := [97, 40, 98, 124, 99, 41, 42, 100]
+/-- `xabcbdad` -/
+def subj2 : Bytes := [120, 97, 98, 99, 98, 100, 97, 100]
+def code2 : List Inst :=
+  [Inst.mark 0, Inst.atom ⟨AK.chr, [97]⟩, Inst.fork 3 10, Inst.mark 2, Inst.fork 5 7,
+   Inst.atom ⟨AK.chr, [98]⟩, Inst.jump 8, Inst.atom ⟨AK.chr, [99]⟩, Inst.mark 3, Inst.fork 3 10,
+   Inst.atom ⟨AK.chr, [100]⟩, Inst.mark 1, Inst.mtch]
+
+example : (regcomp pat2 0).map (·.map (·.code)) = some (some code2) := by decide
+
+/-- the unbounded repetition: leftmost match `abcbd` at offset 1; group 1 holds its last
+    iteration, the `b` at offset 4 -/
+example : regexec ⟨code2, 13, 0⟩ subj2 2 0 64 4 =
+    (ExecRes.found [1, 6, 4, 5, -1, -1, -1, -1] 0, [(1, 6), (4, 5)]) :=
+  regexecF_sound (fuel := 60) (by decide)
+
+/-- with a depth limit of 3 the same run is cut short: the first start positions fail at the limit
+    (the cut counter is non-zero) and a later, shallower match `ad` is reported -/
+example : regexec ⟨code2, 13, 0⟩ subj2 2 0 3 4 =
+    (ExecRes.found [6, 8, -1, -1, -1, -1, -1, -1] 1, [(6, 8), (-1, -1)]) :=
+  regexecF_sound (fuel := 60) (by decide)
+
+/-- a derivation by hand: `ab*` takes `abb` from offset 0 to offset 3 with one copy of `a` and two
+    copies of `b` -/
+example (m : Marks) : Matches [97, 98, 98] 0 2
+    (.cat (.atom ⟨AK.chr, [97]⟩ 1 1) (.atom ⟨AK.chr, [98]⟩ 0 (-1))) (0, m) (3, m) :=
+  Matches.cat
+    (Matches.atom (k := 1) (by decide) (Iter.succ (One.atom (pos' := 1) (by decide)) (Iter.zero _ _)))
+    (Matches.atom (k := 2) (by decide)
+      (Iter.succ (One.atom (pos' := 2) (by decide))
+        (Iter.succ (One.atom (pos' := 3) (by decide)) (Iter.zero _ _))))
+
+/-- a group derivation by hand: `(a)` on `a` sets marks 2 and 3 -/
+example : Matches [97] 0 4 (.grp (.atom ⟨AK.chr, [97]⟩ 1 1) 1 1 1)
+    (0, [-1, -1, -1, -1]) (1, [-1, -1, 0, 1]) :=
+  Matches.grp (k := 1) (by decide)
+    (Iter.succ
+      (One.grp (m' := [-1, -1, 0, -1])
+        (Matches.atom (k := 1) (by decide)
+          (Iter.succ (One.atom (pos' := 1) (by decide)) (Iter.zero _ _))))
+      (Iter.zero _ _))
+
+end examples
+
 end Neatvi.Props.C10
